@@ -250,12 +250,35 @@ def explain(line, got, want, c):
     return "other"
 
 
+STRUCT_FLAGS = (" LINKS-BAD", " COUNT-MISMATCH")
+
+
+def strip_struct(out):
+    """drop the harness's representation-check flags: what is left is what the property speaks about
+    (accepted or not, deliveries, queue content and order, due times, pending answers)"""
+    res = []
+    for l in out:
+        for f in STRUCT_FLAGS:
+            l = l.replace(f, "")
+        res.append(l)
+    return res
+
+
 class Prop:
     def classify(self, lines, impl, crash, model):
         want, ctxs = oracle_lines(lines)
         if crash:
             return "violation", "implementation crashed / hung / sanitizer report: " + crash, crash
-        i = common.first_diff(impl, want)
+        if common.first_diff(strip_struct(impl), want) is None and common.first_diff(impl, want) is not None:
+            # only the representation check fired and no continuation that was tried turned it into a
+            # wrong delivery / order / cancellation: a proved invariant of the model (C08_links_wellformed)
+            # does not hold in the implementation, but no clause of C08 was seen to fail
+            j = common.first_diff(impl, want)
+            return ("representation-only", "line %d `%s`: the real list's prev/next/tail/count are inconsistent (`%s`) although "
+                    "deliveries and queue order agree with the specification; no continuation tried made a clause of C08 fail"
+                    % (j, lines[j], impl[j]), "diff:%s:representation-only" % (lines[j].split() or ["?"])[0])
+        simpl = strip_struct(impl)
+        i = common.first_diff(simpl, want)
         if i is None:
             # the implementation does what the specification says on this input: the difference is
             # between the implementation and the hand-written *model*, and no clause of C08 is broken
@@ -264,10 +287,13 @@ class Prop:
                     "link-level model (`%s` vs `%s`)" % (j, impl[j] if j is not None and j < len(impl) else "<missing>",
                                                         model[j] if j is not None and j < len(model) else "<missing>"),
                     "diff:model-only")
-        got = impl[i] if i < len(impl) else "<missing>"
-        kind = explain(lines[i] if i < len(lines) else "", got, want[i], ctxs[i]) if i < len(impl) else "truncated"
+        got = simpl[i] if i < len(simpl) else "<missing>"
+        kind = explain(lines[i] if i < len(lines) else "", got, want[i], ctxs[i]) if i < len(simpl) else "truncated"
         why = "line %d `%s`: implementation says `%s`, the specification (and the proved model) says `%s` [%s]" % (
-            i, lines[i] if i < len(lines) else "?", got, want[i], kind)
+            i, lines[i] if i < len(lines) else "?", impl[i] if i < len(impl) else "<missing>", want[i], kind)
+        j = common.first_diff(impl, want)
+        if j is not None and j < i:
+            why += "; the real list's links were already inconsistent at line %d `%s` (`%s`)" % (j, lines[j], impl[j])
         opk = (lines[i].split() or ["?"])[0] if i < len(lines) else "?"
         return "violation", why, "diff:%s:%s" % (opk, kind)
 
@@ -358,6 +384,9 @@ FAMILIES = {
     "reentrant": (["reset 2", "newl 1", "newl 2", "handler 1 1 p:1:1:0:0 p:2:2:-1:1", "handler 2 2 ca:1 t:1",
                    "handler 1 2 d:1", "handler 2 1 d:1 p:2:1:1:0"],
                   ["post 1 1 0 0", "post 1 2 1 0", "post 2 2 0 1", "post 2 1 1 0", "tick 1", "process", "cflag 2 1", "newl 1"]),
+    # ties only: everything lands on two due times; every cancel flavour
+    "ties": (["reset 1", "newl 1", "newl 2", "handler 1 2 p:2:1:0:1"],
+             ["post 1 1 1 1", "post 2 1 1 2", "post 1 2 0 0", "process", "tick 1", "cflag 2 2", "ctype 1 1"]),
 }
 
 
@@ -389,6 +418,71 @@ def corpus_cases():
     return res
 
 
+class Diff08(Diff):
+    """A difference that is only a representation flag (LINKS-BAD / COUNT-MISMATCH) is first turned
+    into a behavioural one by searching continuations of the shrunk history on the real code."""
+    mode = "any"
+
+    def differs(self, lines):
+        impl, crash, info, model = self.both(lines)
+        if crash is not None:
+            return True
+        if self.mode == "behav":
+            return common.first_diff(strip_struct(impl), strip_struct(model)) is not None
+        return common.first_diff(impl, model) is not None
+
+    def behavioural(self, lines):
+        impl, crash, info, model = self.both(lines)
+        return crash is not None or common.first_diff(strip_struct(impl), strip_struct(model)) is not None
+
+    def continuations(self, lines):
+        alive = set()
+        for l in lines:
+            t = l.split()
+            if len(t) == 2 and t[0] == "newl" and t[1].isdigit():
+                alive.add(int(t[1]))
+            if len(t) == 2 and t[0] == "destroy" and t[1].isdigit():
+                alive.discard(int(t[1]))
+        pre = []
+        if not alive:
+            pre, alive = ["newl 1"], {1}
+        ls = sorted(alive)[:2]
+        alpha = ["process", "tick 1", "tick 3"]
+        for l in ls:
+            alpha += ["post %d 1 %d 0" % (l, d) for d in (-3, -1, 0, 1, 2, 4, 7)] + ["call %d" % l]
+        for n in (1, 2, 3):
+            for combo in itertools.product(alpha, repeat=n):
+                yield pre + list(combo) + ["tick 9", "process"]
+
+    def report(self, name, case):
+        self.mode = "any"
+        if self.behavioural(case):
+            self.mode = "behav"
+            return Diff.report(self, name, case)
+        # representation flag only: shrink, then look for a continuation that breaks a clause of C08
+        head, body = case[:1], case[1:]
+        saved, self.base_timeout = self.base_timeout, 4
+        try:
+            small = head + common.ddmin(body, lambda b: self.differs(head + b)) if len(body) > 1 else case
+            found = None
+            tried = 0
+            for cont in self.continuations(small):
+                tried += 1
+                if tried > 6000:
+                    break
+                if self.behavioural(small + cont):
+                    found = small + cont
+                    break
+        finally:
+            self.base_timeout = saved
+        self.ctx.stats["continuations_tried"] = self.ctx.stats.get("continuations_tried", 0) + tried
+        if found:
+            self.mode = "behav"
+            return Diff.report(self, name + "+continuation", found)
+        self.mode = "any"
+        return Diff.report(self, name, small)
+
+
 def build(ctx):
     return common.build_full(ctx, "h_eventqueue", ["eventqueue.cpp"])
 
@@ -411,7 +505,7 @@ def check(ctx):
     if ctx.tier == "thorough":
         common.leanchecker(ctx, PROPS_MODULE)
     exe = build(ctx)
-    d = Diff(ctx, prop, exe, AREA)
+    d = Diff08(ctx, prop, exe, AREA)
     quick = ctx.tier == "quick"
     bad = d.run_batch(corpus_cases())
     # the oracle used for classification must itself agree with the proved model on what is generated:
@@ -427,7 +521,7 @@ def check(ctx):
     for i in range(0, len(rcases), 250):
         bad += d.run_batch(rcases[i:i + 250])
     exh = {}
-    plan = [("order", 4 if quick else 5), ("reentrant", 5 if quick else 6)]
+    plan = [("order", 4 if quick else 5), ("reentrant", 5 if quick else 6), ("ties", 5 if quick else 6)]
     for name, depth in plan:
         pre, alpha = FAMILIES[name]
         b, n = run_stream(d, "exh-%s" % name, exhaustive(pre, alpha, depth))
